@@ -143,7 +143,7 @@ def run_daemon(desc):
     for i in range(n):
         vi, ncomm, comm = variants[r.choice([0] * 8 + [1] * 7 + [2] * 2 + [3, 4, 5])]  # the community parser is quadratic: the long sets are few
         fam6 = r.random() < 0.3
-        p = f'2001:db8:{i // 65536:x}:{i % 65536:x}::/64' if fam6 else f'10.{i // 65536}.{i // 256 % 256}.{i % 256}/32'
+        p = f'2001:db8:{i // 65536 + 1:x}:{i % 65536 + 1:x}::/64' if fam6 else f'10.{i // 65536}.{i // 256 % 256}.{i % 256}/32'  # no zero group: the text is the canonical form
         nh = '2001:db8::1' if fam6 else '192.0.2.1'
         med = vi * 10 + i % 3
         routes[p] = (nh, med, ncomm)
